@@ -187,10 +187,10 @@ Theorem C02_arcswap_partial : forall g vw p0 T cap,
 Proof. exact AsC.arcswap_runs_f64. Qed.
 Print Assumptions C02_arcswap_partial.
 
-(* PARTIAL: the same for the EXACT per-thread share (headroom_quot: an
-   idealisation of the code's f64 expression), with no bound on the weights and
-   no axiom.  What is missing is only that this is the share of the code --
-   which C02_arcswap_partial above supplies below 2^53. *)
+(* The same for the EXACT per-thread share (headroom_quot), with no bound on the
+   weights and no axiom.  Until 71662c8 this was an idealisation of the code's
+   f64 round trip (hence the name); since that fix it IS the share of the code
+   for i64 weights: C02_arcswap_i64 below states it for the generated flag. *)
 Theorem C02_arcswap_exact_share_partial : forall g vw p0 T cap,
   ArcSwap.graph_ok g -> length vw = length g -> length p0 = length g -> (1 <= length g)%nat -> (1 <= T)%nat ->
   let cf := ArcSwap.config_of ArcSwap.headroom_quot g vw p0 T cap in
@@ -207,6 +207,27 @@ Theorem C02_arcswap_exact_share_partial : forall g vw p0 T cap,
     /\ Forall (fun x => (x < ArcSwap.part_count p0)%nat) (ArcSwap.g_part st).
 Proof. exact AsC.arcswap_runs. Qed.
 Print Assumptions C02_arcswap_exact_share_partial.
+
+(* FULL for i64 weights since 71662c8 (the per-thread share is divided in the
+   weight type): the configuration below is the one the translator generates
+   from the source ([ArcSwapGen.arcswap_share_in_W]; the statement type-checks
+   only while the source divides in W), no bound on the weights, axiom-free. *)
+Theorem C02_arcswap_i64 : forall g vw p0 T cap,
+  ArcSwap.graph_ok g -> length vw = length g -> length p0 = length g -> (1 <= length g)%nat -> (1 <= T)%nat ->
+  let cf := ArcSwap.config_of (ArcSwap.share_i64 Coupe.Gen.ArcSwapGen.arcswap_share_in_W) g vw p0 T cap in
+  ArcSwap.init_state cf p0 <> None /\
+  forall st0 sch st, ArcSwap.init_state cf p0 = Some st0 -> ArcSwap.run cf st0 sch = Some st ->
+    (ArcSwap.g_fin st = false ->
+       (forall t w, nth_opt (ArcSwap.g_ws st) t = Some w -> ArcSwap.w_pc w <> ArcSwap.PDone ->
+                    ArcSwap.step cf st t <> None)
+       /\ exists t st', ArcSwap.step cf st t = Some st')
+    /\ Acc (ArcSwapTerm.step_rel cf) st
+    /\ (forall f : nat -> nat, exists m, ArcSwap.run cf st (map f (seq 0 m)) = None)
+    /\ (exists sch' st', ArcSwap.run cf st sch' = Some st' /\ ArcSwap.g_fin st' = true)
+    /\ length (ArcSwap.g_part st) = length p0
+    /\ Forall (fun x => (x < ArcSwap.part_count p0)%nat) (ArcSwap.g_part st).
+Proof. exact AsC.arcswap_runs. Qed.
+Print Assumptions C02_arcswap_i64.
 
 (* ------------------------------------------------------------------ KMeans *)
 
